@@ -51,6 +51,9 @@ func RunShards(r *Report, names []string, fn func(name string, r *Report)) {
 			out := filepath.Join(tmp, fmt.Sprintf("s%d.json", i))
 			args := []string{"-tier", cfg.Tier, "-seed", fmt.Sprint(cfg.Seed), "-shard", name, "-out", out,
 				"-findings", cfg.Findings, "-replays", cfg.ReplayDir, "-workers", "1"}
+			if cfg.RacePass {
+				args = append(args, "-racepass")
+			}
 			rem := int(time.Until(cfg.Deadline()).Seconds())
 			if rem < 5 {
 				rem = 5
@@ -58,6 +61,9 @@ func RunShards(r *Report, names []string, fn func(name string, r *Report)) {
 			args = append(args, "-budget", fmt.Sprint(rem))
 			cmd := exec.Command(os.Args[0], args...)
 			cmd.Env = append(os.Environ(), "GOMAXPROCS=2")
+			if cfg.RacePass {
+				cmd.Env = append(os.Environ(), "GOMAXPROCS=4", "GORACE=halt_on_error=0 exitcode=0 log_path="+out+".race")
+			}
 			var buf bytes.Buffer
 			cmd.Stdout = &buf
 			cmd.Stderr = &buf
